@@ -121,6 +121,10 @@ func parseJob(harness, param string) *interp.Job {
 					j.MaxSteps = n
 				case "solver":
 					j.Solver = v
+				case "expect":
+					j.Expect = append(j.Expect, v)
+				case "expectnot":
+					j.ExpectNot = append(j.ExpectNot, v)
 				}
 			}
 		}
@@ -265,6 +269,22 @@ func cmdCheck(args []string) int {
 		}
 		if len(jr.Reached) == 0 && len(jr.Findings) == 0 {
 			incomplete = append(incomplete, jr.Job.Harness+"/"+short(jr.Job.Param)+": vacuous (no reach marker on any path: "+fmt.Sprint(jr.Aborted)+")")
+		}
+		for _, want := range jr.Job.Expect {
+			hit := false
+			for r := range jr.Reached {
+				hit = hit || strings.Contains(r, want)
+			}
+			if !hit {
+				incomplete = append(incomplete, jr.Job.Harness+"/"+short(jr.Job.Param)+": vacuous (no path reached a marker containing "+want+")")
+			}
+		}
+		for _, bad := range jr.Job.ExpectNot {
+			for r := range jr.Reached {
+				if strings.Contains(r, bad) {
+					incomplete = append(incomplete, jr.Job.Harness+"/"+short(jr.Job.Param)+": job reached "+r+" although it is meant to exclude it")
+				}
+			}
 		}
 		if len(samples) < 12 {
 			for _, s := range jr.Samples {
